@@ -2,6 +2,7 @@ package c12
 
 import (
 	"bufio"
+	"os"
 	"bytes"
 	"fmt"
 	"net"
@@ -267,7 +268,7 @@ func checkLDAP(c authCase) error {
 				// login with a user name lets the reference expect gated operations to pass
 				if user != "" {
 					loggedIn, known = true, true
-				} else if !loggedIn {
+				} else {
 					known = false
 				}
 			default:
@@ -466,8 +467,11 @@ func TestAuth(t *testing.T) {
 		return
 	}
 	r.Rule("credential sets of size 0..3 over users {root,admin,guest,''} x passwords {root,admin,123456,''} (+ wildcard for the ssh simulator, the only service that defines one) configured through TOML on a fresh server; attempt sequences of length 1..4 on one connection (ssh: per user; ldap: DN forms cn=U,dc=.. / U / anonymous; ftp: fixed set anonymous:anonymous) with gated-operation probes before and after each attempt; oracle = reference predicate pair-in-set, per-attempt auth events with evaluated user and presented password, gated ops refused (ldap 53 / ftp 530) until a login succeeded on this connection; non-trivial = failing attempt followed by another attempt, or a probe before a success")
-	r.Rapid(t, "TestAuth", r.Pick(2500, 25000), func(rt *rapid.T) {
+	r.Rapid(t, "TestAuth", r.Pick(1200, 25000), func(rt *rapid.T) {
 		c := authCase{Service: rapid.SampledFrom([]string{"ssh", "ldap", "ldap", "ftp"}).Draw(rt, "service")}
+		if only := os.Getenv("C12_ONLY"); only != "" {
+			c.Service = only
+		}
 		switch c.Service {
 		case "ssh":
 			c.Set = genSet(rt, true)
